@@ -29,6 +29,10 @@ SCENARIOS = {
     'permissive_default_rule': dict(regs=[('x', 'role:a')], main_old={'default': '@', 'p': '!', 'x': 'role:a'},
                                     main_new={'default': '@', 'p': '!', 'x': 'role:b'}, dir_old={'p': '!'}, dir_new={'p': '!'},
                                     query='p', drop_main_p=True),
+    # safe today: the concurrent thread's own load step re-merges the registered default before it decides
+    'registered_default_permissive': dict(regs=[('foo', '!'), ('x', 'role:a')], main_old={'default': '@', 'x': 'role:a'},
+                                          main_new={'default': '@', 'x': 'role:b'}, dir_old={'y': '!'}, dir_new={'y': '!'},
+                                          query='foo'),
     'deprecated_defaults': dict(regs=[('np', 'role:zz', ('op', 'role:zz')), ('x', 'role:a')], main_old={'x': 'role:a'},
                                 main_new={'x': 'role:b'}, dir_old={'op': 'role:a'}, dir_new={'op': 'role:a'}, query='np',
                                 expect_same=True),
@@ -129,7 +133,7 @@ def run(ctx, rep):
                              'paused_in': where} if total_sched % 97 == 0 else None)
         observed[name] = sorted(seen)
     rep.rules.append('%d schedules: for each of %d reload scenarios (main-file edit with directory overrides, directory edit, '
-                     'permissive default rule, deprecated defaults) thread A is preempted after every source line k inside the '
+                     'permissive default rule with the rule in policy.d / as a registered default, deprecated defaults) thread A is preempted after every source line k inside the '
                      'library, thread B runs its whole enforce call, A resumes%s; both threads\' decisions are compared with '
                      'the decision under the complete old and the complete new policy, and the final state with a fresh enforcer'
                      % (total_sched, len(SCENARIOS), '; plus a grid of two-switch schedules' if ctx.thorough else ''))
